@@ -1,5 +1,6 @@
 """Entry point for sleap_nn training."""
 
+import attrs
 import hydra
 from loguru import logger
 from pathlib import Path
@@ -123,23 +124,25 @@ def get_aug_config(intensity_aug, geometric_aug):
 def get_backbone_config(backbone_cfg):
     """Returns `BackboneConfig` object based on the user-provided parameters."""
     backbone_config = BackboneConfig()
+    # `BackboneConfig` only accepts the base config class of each backbone family, so
+    # the presets are expressed as instances of that class.
     unet_config_mapper = {
         "unet": UNetConfig(),
-        "unet_medium_rf": UNetMediumRFConfig(),
-        "unet_large_rf": UNetLargeRFConfig(),
+        "unet_medium_rf": UNetConfig(**attrs.asdict(UNetMediumRFConfig())),
+        "unet_large_rf": UNetConfig(**attrs.asdict(UNetLargeRFConfig())),
     }
     convnext_config_mapper = {
         "convnext": ConvNextConfig(),
         "convnext_tiny": ConvNextConfig(),
-        "convnext_small": ConvNextSmallConfig(),
-        "convnext_base": ConvNextBaseConfig(),
-        "convnext_large": ConvNextLargeConfig(),
+        "convnext_small": ConvNextConfig(**attrs.asdict(ConvNextSmallConfig())),
+        "convnext_base": ConvNextConfig(**attrs.asdict(ConvNextBaseConfig())),
+        "convnext_large": ConvNextConfig(**attrs.asdict(ConvNextLargeConfig())),
     }
     swint_config_mapper = {
         "swint": SwinTConfig(),
         "swint_tiny": SwinTConfig(),
-        "swint_small": SwinTSmallConfig(),
-        "swint_base": SwinTBaseConfig(),
+        "swint_small": SwinTConfig(**attrs.asdict(SwinTSmallConfig())),
+        "swint_base": SwinTConfig(**attrs.asdict(SwinTBaseConfig())),
     }
     if isinstance(backbone_cfg, str):
         if backbone_cfg.startswith("unet"):
